@@ -221,10 +221,42 @@ def r17c(ctx):
         ctx.violation("R17c", mb.file, "min_bounded", mb.node, "min selection", "min_bounded no longer keeps the smaller candidate under the comparator")
 
 
+def r17d(ctx):
+    m = ctx.model
+    ctx.rule("R17d", "IterativeTighteningSearch discards held candidates only when they are known to be dominated: a "
+                     "`self._tightened.clear()` / `self._untightened.clear()` in tighten_bounds is allowed (a) once goal_test() "
+                     "holds (the best candidate dominates all others), (b) when a new candidate reaches the caller's lower bound "
+                     "(nothing can beat it), or (c) for `_untightened` alone when its single element is moved to `_tightened`; "
+                     "anywhere else a cheaper definitive candidate can be thrown away and the search ends on a non-minimum")
+    q = m.need_class("IterativeTighteningSearch")
+    f = m.method(q, "tighten_bounds")
+    clears = [c for c in walk_no_nested(f.node) if isinstance(c, ast.Call) and isinstance(c.func, ast.Attribute) and c.func.attr == "clear"
+              and self_attr(c.func.value) in ("_tightened", "_untightened")]
+    ctx.floor("R17d", len(clears), 4, "heap clears in IterativeTighteningSearch.tighten_bounds")
+    for c in clears:
+        heap = self_attr(c.func.value)
+        facts = [ast.unparse(t).replace(" ", "") for t, pol in flatten_conditions(dominating_conditions(c)) if pol]
+        why = None
+        if "self.goal_test()" in facts:
+            why = "under goal_test()"
+        elif any(ft.startswith("self.initial_bounds.lower_bound>=") and ft.endswith(".bounds().upper_bound") for ft in facts):
+            why = "a candidate reached the caller's lower bound"
+        elif heap == "_untightened" and "len(self._untightened)==1" in facts:
+            why = "the single open candidate is moved to the definitive heap"
+        if why:
+            ctx.proved("R17d", f.file, "IterativeTighteningSearch.tighten_bounds", c, f"self.{heap}.clear() @{len(facts)}", why)
+        else:
+            ctx.violation("R17d", f.file, "IterativeTighteningSearch.tighten_bounds", c, f"self.{heap}.clear() unjustified",
+                          f"`{norm(c, 40)}` under {facts or 'no condition'}: the held candidates are dropped without goal_test() having "
+                          f"established that the best one dominates them - a cheaper definitive candidate already in self.{heap} is lost "
+                          f"and the search converges to a more expensive one (e.g. [2,2] held, [0,10] -> [6,6] resolved last: answer 6)")
+
+
 def run(ctx):
     r17a(ctx)
     r17b(ctx)
     r17c(ctx)
+    r17d(ctx)
     from .c05 import r05c
     r05c(ctx)     # candidates taken from the one-shot iterator are retained on a heap on every path
     ctx.assume("that the search ends with a minimum, that ordering is by final cost and that all of this terminates for "
